@@ -2,7 +2,7 @@ import core, os, hashlib, re
 
 LEVEL = 'exploration'
 RULE = ('a deterministic scenario suite (callbacks on 1-13 parameter and variadic functions, conditional and sequenced stubs incl. the no-match panic, pointer/value method mocks, interface mocks with Apply and As().Return, '
-        'values with nil pointers, nil and typed-nil interfaces, pointer cycles through structs, unexported fields, String/Error methods that panic) is run with one seed in separate processes under logging off, '
+        'out-parameters in the caller frame at every stack depth of fresh goroutines, values with nil pointers, nil and typed-nil interfaces, pointer cycles through structs, unexported fields, String/Error methods that panic) is run with one seed in separate processes under logging off, '
         'OpenDebug(), OpenTrace(), both, and GOOM_DEBUG=1 in the environment; every call, argument, result and panic is written to a transcript and the transcripts must be byte-identical; '
         'distinct = logging configurations compared + transcript line kinds')
 
@@ -25,6 +25,16 @@ def run(ctx):
             continue
         ctx.absorb(ch, what='TestC19[%s]' % mode)
         trans[mode] = open(tp).read().split('\n') if os.path.exists(tp) else None
+    # out-parameter sweep: writes through pointers into the caller's frame
+    for mode, _ in modes:
+        lost = int(ctx.stats.get('outparam_writes_lost_on_stack_growth:' + mode, 0))
+        if lost and mode == 'off':
+            ctx.inconclusive.append('out-parameter writes lost with logging off at %s: the baseline run itself is wrong (C01 decides that)' % ctx.notes.get('outparam_lost_at:off'))
+        elif lost:
+            ctx.violations.append({'key': 'C19/caller-frame-out-parameter-lost-with-logging',
+                                   'what': 'logging=%s: a callback\'s writes through pointer arguments that point into the caller\'s frame were lost at %d of %d stack depths (first: %s); with logging off none are lost' % (
+                                       mode, lost, int(ctx.stats.get('outparam_depths:' + mode, 0)), ctx.notes.get('outparam_lost_at:' + mode)),
+                                   'case': {'mode': mode, 'depths_lost': ctx.notes.get('outparam_lost_at:' + mode)}})
     base = trans.get('off')
     if not base or len(base) < 10:
         ctx.inconclusive.append('no baseline transcript')
